@@ -669,6 +669,7 @@ func main() {
 			fp[filepath.Base(rel)+":"+n] = hex.EncodeToString(h[:])[:12]
 		}
 	}
+	genProcs(repo, out)
 	b, _ := json.MarshalIndent(fp, "", " ")
 	_ = os.WriteFile(filepath.Join(out, "fingerprints.json"), b, 0o644)
 }
